@@ -125,6 +125,10 @@ pub(crate) fn optimize(
 // Only keep one minimizer for every start mode.
 fn remove_hopeless_cases(list: &mut Vec<GenericPlan>) {
     list.sort_unstable_by_key(Plan::cost);
+    #[cfg(datamatrix_verif)]
+    if crate::verif_hooks::prune_log_on() {
+        crate::verif_hooks::prune_record(false, list.iter().map(verif_plan_record).collect());
+    }
 
     // only keep min among all plans with tuple (start mode, current mode)
     let mut seen = [false; 6 * 6];
@@ -166,6 +170,31 @@ fn remove_hopeless_cases(list: &mut Vec<GenericPlan>) {
         } else {
             break;
         }
+    }
+    #[cfg(datamatrix_verif)]
+    if crate::verif_hooks::prune_log_on() {
+        crate::verif_hooks::prune_record(true, list.iter().map(verif_plan_record).collect());
+    }
+}
+
+#[cfg(datamatrix_verif)]
+fn verif_plan_record(p: &GenericPlan) -> crate::verif_hooks::PlanRecord {
+    let mut sw = [None; 6];
+    for m in [
+        EncodationType::Ascii,
+        EncodationType::Base256,
+        EncodationType::Edifact,
+        EncodationType::X12,
+        EncodationType::C40,
+        EncodationType::Text,
+    ] {
+        sw[m.index()] = p.cost_for_switching_to(m).map(|c| c.verif_raw());
+    }
+    crate::verif_hooks::PlanRecord {
+        start: p.start_mode().index(),
+        current: p.current().index(),
+        cost: p.cost().verif_raw(),
+        switch_cost: sw,
     }
 }
 
